@@ -8,7 +8,7 @@
 #include <stdarg.h>
 #include "uv-common.h"
 #include "unix/internal.h"
-#include "c08_sched.h"
+#include "c08_sched.h"  /* found next to this file */
 
 static void c08_mutex_lock(uv_mutex_t* m);
 static void c08_mutex_unlock(uv_mutex_t* m);
@@ -379,5 +379,7 @@ int main(void) {
   fflush(stdout);
   th_kill_all();
   if (threads != NULL && threads != default_threads) uv__free(threads);
+  threads = NULL;
+  nthreads = 0;   /* uv_library_shutdown's destructor must not post the exit message */
   return 0;
 }
